@@ -462,12 +462,15 @@ class EditCollection(AbstractCompoundEdit, Generic[C]):
         return None
 
     def edits(self) -> Iterator[Edit]:
-        yield from iter(self._sub_edits)
+        # While this generator is suspended, tighten_bounds() or another edits() iterator may expand further sub-edits
+        # from the shared self._edit_iter; yield by position so that none of them is skipped
+        num_yielded = 0
         while True:
-            next_edit = self._expand_edits()
-            if next_edit is None:
+            for sub_edit in itertools.islice(self._sub_edits, num_yielded, None):
+                num_yielded += 1
+                yield sub_edit
+            if self._expand_edits() is None and num_yielded >= len(self._sub_edits):
                 break
-            yield next_edit
 
     def _is_tightened(self, starting_bounds: Range) -> bool:
         return not self.valid or self.bounds().lower_bound > starting_bounds.lower_bound or \
